@@ -529,5 +529,49 @@ func runDebugPair(c *CaseDesc) []string {
 			}
 		}
 	}
+	// and with the same collection OBJECT bound once more after the first chain has been used, to a chain with an init
+	// function: that chain's Debugging must describe that chain (not whatever was built for the first one)
+	if !c2.HasInit {
+		afterOpsHook = secondBindWithInit
+		v3 := runCase(c2.clone())
+		afterOpsHook = nil
+		var names3 string
+		var want3 []string
+		inS7, second := false, false
+		for _, l := range v3 {
+			switch {
+			case l == "second bind":
+				second = true
+			case !second:
+			case strings.HasPrefix(l, "dump "):
+				inS7 = strings.HasPrefix(l, "dump S7 ")
+				if inS7 {
+					want3 = nil
+				}
+			case strings.HasPrefix(l, "f ") && inS7:
+				kv := pKV(strings.Fields(l))
+				if kv["inc"] == "1" {
+					origin := kv["origin"]
+					if origin == "-" {
+						origin = ""
+					}
+					if kv["index"] != "-1" {
+						want3 = append(want3, origin+"("+kv["index"]+")")
+					} else {
+						want3 = append(want3, origin)
+					}
+				}
+			case strings.HasPrefix(l, "d names "):
+				names3 = strings.TrimPrefix(l, "d names ")
+			}
+		}
+		if names3 != "" && len(want3) > 0 {
+			if names3 == strings.Join(want3, "|") {
+				out = append(out, "pair dbgnames-second same")
+			} else {
+				out = append(out, "pair dbgnames-second diff reported="+names3+" bound="+strings.Join(want3, "|"))
+			}
+		}
+	}
 	return append(out, "end")
 }
